@@ -8,8 +8,9 @@ from nvlib.check import Prop
 
 DIRS = ["u1", "u2", "bb", "root", "odd"]
 FILES = ["a", "b", "c"]
-NAMES = ["u1", "u2", "Backbone", "Root", "NONAME", "zed", "x9", ""]
+NAMES = ["u1", "u2", "Backbone", "Root", "NONAME", "zed", "x9", "", "root", "U1"]     # uid names are case sensitive
 CF_SPECS = ["s:u1", "s:u2", "s:Backbone", "s:Root", "s:NONAME", "s:zed", "s:", "i:0", "i:7", "i:-1", "arr", "err", "none",
+            "s:root", "s:backbone", "s:U1",
             # re-entrancy: the master drops its own euid inside creator_file when it is the creating object
             "drop+s:Backbone", "drop+s:Backbone", "drop+s:Root", "drop+s:u1", "drop+err", "drop+i:0"]
 VS_SPECS = [("i:1", 6), ("i:0", 6), ("i:-3", 1), ("s:yes", 1), ("s:", 1), ("arr", 1), ("err", 1), ("none", 2)]
@@ -333,6 +334,11 @@ class C20(Prop):
         mk("cf-drop-noroot-simul", ["cfg noroot simul", "pol cf bb drop+s:Backbone", "pol vs m * i:1", "do m seteuid,s:Backbone",
                                     "do m load,/c20/bb/a", "do se seteuid,s:zed", "do se load,/c20/bb/b", "do m seteuid,s:x9",
                                     "do se via,m,clone,c1,/c20/bb/b"])
+        # uid names are case sensitive and compared as whole strings: "root" is not "Root", "backbone" gives no euid
+        mk("uid-name-case", ["pol cf u1 s:root", "pol cf u2 s:backbone", "pol cf odd s:U1", "do m load,/c20/u1/a", "do m load,/c20/u2/a",
+                             "do m load,/c20/odd/a", "do u1a seteuid,s:Root", "do u1a load,/c20/u1/b", "do u1a load,/c20/root/a",
+                             "do u2a seteuid,s:backbone", "do u2a load,/c20/bb/a", "do u2a load,/c20/u2/b", "do odda seteuid,s:u1",
+                             "pol cf u1 s:u1", "do odda load,/c20/u1/c", "do odda export,u1b", "do m seteuid,s:root", "do m load,/c20/root/b"])
         # ---- round 5: the other efuns that load an object by name for their caller
         mk("load-by-other-efuns", ["do m load,/c20/u1/a", "do u1a call,/c20/u1/b", "do u1a calla,/c20/u1/b", "do u1a tellroom,/c20/u1/b",
                                    "do u1a seteuid,s:u1", "do u1a call,/c20/u1/b", "do u1a calla,/c20/u1/c", "do u1a tellroom,/c20/u2/a",
